@@ -118,7 +118,8 @@ theorem irun_node {limit : Nat} {c : Ctx} {w : Wid} {addrs : List Addr} :
       rw [h2, h1]
       cases ev <;> rfl
 
-/-- THE FULL STATEMENT (false as it stands: `MW.Lemmas.RemoveMidCex.not_interleavedProjects`): from C01's invariant for the
+/-- THE FULL STATEMENT (open.  It was FALSE of the model of the unrepaired code: `MW.Lemmas.RemoveMidCex.Unrepaired`;
+    since the D45 repair the refuting history ends in the invariant: `MW.Lemmas.RemoveMidCex.interleaved_inv`): from C01's invariant for the
     full keystore table, with `w` flagged and every other keystore's wallet ready, ANY history of removal steps,
     announced node states (extensions and reorganisations), unconfirmed transactions and restarts that ends with the
     finishing step leaves C01's invariant for the table without `w`, on the chain the follower was last told about. -/
